@@ -6,7 +6,13 @@ A case is {"env": ENV, "entry": "direct"|"validate"|"json", "raw": RAW} (formats
 attribute of the loaded package) while the payload is loaded - the driver removes them for the duration of the case if some
 earlier work of this process loaded them, and says so ("lazy_pre").
 Observation: {"res": canonical outcome, "eff": ordered list of observed effects, "newmods": new sys.modules keys,
-              "nested": [[path, res] ...]  (every nested sub-payload loaded on its own, through the same entry)}.
+              "executed": modules whose code ran during the load (audit hook: a module body executed - also one whose
+              module object had been sitting in sys.modules unexecuted), "asked": what the import system was asked for,
+              "nested": [[path, res, newmods + executed] ...]  (every nested sub-payload loaded on its own, same entry)}.
+
+A case with "fresh": {"imports": [taskiq modules], "prelude": ...} is loaded in a FRESH interpreter (PYTHONPATH = the repo
+only) that has imported nothing but those modules (section "fresh processes" below); {"fresh":…, "cases": [...]} runs a
+batch of cases in one such process, in order; {"fresh_views": [{"imports":…}, …]} lists what such processes have loaded.
 
 Nothing of taskiq is re-implemented here: the driver builds Python objects, calls the entry point inside an
 observation window and canonicalises what came out."""
@@ -17,6 +23,8 @@ import importlib
 import json
 import os
 import pkgutil
+import random
+import subprocess
 import sys
 import types
 
@@ -39,6 +47,53 @@ def new_subclasses():
 
 def log(kind, oid):
     LOG.append((kind, oid, len(new_subclasses())))
+
+
+# --------------------------------------------------------------------------- module code run during a load
+WATCH = {"on": False, "installed": False, "exec": [], "asked": []}
+
+
+def _audit(event, args):
+    if not WATCH["on"]:
+        return
+    if event == "import":
+        WATCH["asked"].append(str(args[0]))
+    elif event == "exec":
+        code = args[0]
+        if getattr(code, "co_name", None) == "<module>":
+            WATCH["exec"].append(str(code.co_filename))
+
+
+def install_watch():
+    """audit hook (cannot be removed again, idle outside a window): 'exec' of a module-level code object = the body of a
+    module is run - also when the module object was in sys.modules already (an unexecuted stand-in registered by
+    importlib.util.LazyLoader and the like), in which case sys.modules need not grow at all"""
+    if not WATCH["installed"]:
+        sys.addaudithook(_audit)
+        WATCH["installed"] = True
+
+
+def raw_vars(m):
+    """the namespace of a module object without going through its (possibly overridden) attribute lookup"""
+    try:
+        return types.ModuleType.__getattribute__(m, "__dict__") if issubclass(type(m), types.ModuleType) else {}
+    except Exception:  # noqa: BLE001
+        return {}
+
+
+def executed_modules(files):
+    """module bodies run during the window -> the sys.modules keys they belong to (a file no module owns: 'file:<name>');
+    code compiled from a string (dataclass / namedtuple helpers) is nobody's module body"""
+    files = [f for f in dict.fromkeys(files) if not f.startswith("<") or f.startswith("<frozen ")]
+    if not files:
+        return []
+    owner = {}
+    for k, m in list(sys.modules.items()):
+        d = raw_vars(m)
+        for f in (d.get("__file__"), getattr(d.get("__spec__"), "origin", None)):
+            if isinstance(f, str):
+                owner.setdefault(f, k)
+    return sorted({owner.get(f, "file:" + os.path.basename(f)) for f in files})
 
 
 # --------------------------------------------------------------------------- trap objects
@@ -203,12 +258,15 @@ class Env:
     def check_kind(self, sp, o):
         """the declared kind must be what Python itself says about the object"""
         k = sp["kind"]
-        is_type = isinstance(o, type)
+        is_mod = issubclass(type(o), types.ModuleType)
+        # a module object is not asked anything (a failing isinstance looks `__class__` up ON the object, and a module that
+        # was registered without having been executed - importlib.util.LazyLoader - runs its code on the first lookup)
+        is_type = not is_mod and isinstance(o, type)
         is_exc = is_type and issubclass(o, BaseException)
         want = {"exc": (True, True), "class": (True, False)}.get(k, (False, False))
         if (is_type, is_exc) != want:
             self.problems.append("object %d declared %s but isinstance/issubclass say %r" % (sp["id"], k, (is_type, is_exc)))
-        if k == "module" and not isinstance(o, types.ModuleType):
+        if k == "module" and not is_mod:
             self.problems.append("object %d is not a module" % sp["id"])
         if k in ("func", "builtin") and not callable(o):
             self.problems.append("object %d not callable" % sp["id"])
@@ -374,7 +432,7 @@ def call_entry(entry, value):
 
 
 def window(env, entry, raw, argtab=()):
-    """one load of `raw` inside an observation window; returns (res, eff, newmods)"""
+    """one load of `raw` inside an observation window; returns (res, eff, newmods, [executed, asked])"""
     mat = Mat(env, entry, Args(argtab, env.argconst))
     env.install()
     gc.disable()
@@ -383,14 +441,19 @@ def window(env, entry, raw, argtab=()):
         before = set(sys.modules)
         BASE_SUB[0] = {id(c) for c in Exception.__subclasses__()}
         del LOG[:]
+        del WATCH["exec"][:], WATCH["asked"][:]
         out = exc = None
+        WATCH["on"] = True
         try:
             out = call_entry(entry, value)
         except BaseException as e:  # noqa: B036 - the outcome is the observation
             exc = e
+        finally:
+            WATCH["on"] = False
         trap_log = list(LOG)
         synth = new_subclasses()
         newmods = sorted(set(sys.modules) - before)
+        ran = [executed_modules(WATCH["exec"]), sorted(set(WATCH["asked"]))[:12]]
         forget(newmods)
         for m in UNLOADED:
             sys.modules.pop(m, None)
@@ -424,7 +487,7 @@ def window(env, entry, raw, argtab=()):
         res = ["valueerror", type(exc).__name__]
     else:
         res = ["other", "raised %s: %s" % (type(exc).__name__, str(exc)[:200])]
-    return res, eff, newmods
+    return res, eff, newmods, ran
 
 
 def forget(names):
@@ -511,7 +574,12 @@ def setup(opts):
     for m in UNLOADED:
         sys.modules.pop(m, None)
     importlib.import_module(LOADED_PKG)
-    # warm-up: let pydantic / taskiq do their lazy work outside any observation window
+    install_watch()
+    warm_up()
+
+
+def warm_up():
+    """let pydantic / taskiq do their lazy work outside any observation window (payloads that name builtins / os only)"""
     warm = [{"exc_type": "ValueError", "exc_module": "builtins", "exc_message": ["w"],
              "exc_cause": {"exc_type": "X", "exc_module": None, "exc_message": []}},
             {"exc_type": "system", "exc_module": "os", "exc_message": []}, {"exc_type": 5}, 0, None, ValueError("w"),
@@ -609,10 +677,10 @@ MAX_PROBE = 6
 
 
 def classify(o):
+    if issubclass(type(o), types.ModuleType):       # by its type: a module object is not asked anything
+        return "module"
     if isinstance(o, type):
         return "exc" if issubclass(o, BaseException) else "class"
-    if isinstance(o, types.ModuleType):
-        return "module"
     if isinstance(o, types.FunctionType):
         return "func"
     if isinstance(o, types.BuiltinFunctionType):
@@ -786,7 +854,250 @@ def lazy_view(cap_other=4):
     return out
 
 
+# --------------------------------------------------------------------------- fresh processes
+# What is "already loaded" depends on the process: an application that embeds the receiver has imported taskiq.api and never
+# touched the scheduler's dependencies, a worker has imported taskiq.cli.worker.run, ...  A driver process has everything a
+# test needs fully imported, so a module OBJECT that sits in sys.modules without having been executed (importlib.util.
+# LazyLoader, a stand-in module type) never exists there.  A fresh interpreter imports a chosen list of taskiq modules
+# (nothing else: no harness module before the snapshot of sys.modules is taken), optionally does what an application does
+# first (prelude), and then loads the cases it is given, in order, with the same window as above.
+FRESH_BOOT = r"""
+import sys
+
+
+def lg_setup(names, prelude):
+    errors = []
+    for n in names.split(","):
+        if n:
+            try:
+                __import__(n)
+            except BaseException as e:
+                errors.append([n, type(e).__name__])
+    if prelude == "inmemory":
+        try:
+            import asyncio
+            from taskiq import InMemoryBroker
+            lg_broker = InMemoryBroker()
+
+            @lg_broker.task
+            async def lg_task(x):
+                raise ValueError(x)
+
+            async def lg_go():
+                await lg_broker.startup()
+                t = await lg_task.kiq(1)
+                r = await t.wait_result(timeout=5)
+                await lg_broker.shutdown()
+                return r.is_err
+            asyncio.run(lg_go())
+        except BaseException as e:
+            errors.append(["prelude", type(e).__name__])
+    return errors
+
+
+if sys.argv[1] == "run":
+    names, prelude, drivers, job, out = sys.argv[2:7]
+    errors = lg_setup(names, prelude)
+    snapshot = list(sys.modules)
+    sys.path.append(drivers)
+    import loadgate_driver
+    loadgate_driver.fresh_child(snapshot, errors, job, out)
+else:
+    # views only say what a process that imports a list HAS in sys.modules (to choose the processes worth running): every
+    # import of a taskiq module starts with the package itself, so that part is done once and the rest in a forked copy
+    plans, drivers, out = sys.argv[2:5]
+    import os
+    __import__("taskiq")
+    for i, plan in enumerate(plans.split(";")):
+        names, prelude, seed, walks = plan.split("|")
+        pid = os.fork()
+        if pid == 0:
+            code = 1
+            try:
+                errors = lg_setup(names, prelude)
+                snapshot = list(sys.modules)
+                sys.path.append(drivers)
+                import loadgate_driver
+                loadgate_driver.fresh_child_view(snapshot, errors, int(seed), int(walks), out + "." + str(i))
+                code = 0
+            finally:
+                os._exit(code)
+        os.waitpid(pid, 0)
+"""
+FRESH_N = [0]
+
+
+def repo_root():
+    import taskiq
+    return os.path.dirname(os.path.dirname(os.path.abspath(taskiq.__file__)))
+
+
+def fresh_python(args):
+    env = {k: v for k, v in os.environ.items() if k not in ("PYTHONSTARTUP", "PYTHONINSPECT")}
+    env.update(PYTHONPATH=repo_root(), PYTHONDONTWRITEBYTECODE="1", PYTHONHASHSEED="0")
+    try:
+        p = subprocess.run([sys.executable, "-c", FRESH_BOOT] + args, env=env, stdin=subprocess.DEVNULL,
+                           stdout=subprocess.PIPE, stderr=subprocess.STDOUT, timeout=900)
+    except subprocess.TimeoutExpired:
+        return "fresh interpreter timed out"
+    return None if p.returncode == 0 else "fresh interpreter rc=%s: %s" % (p.returncode, p.stdout.decode("utf-8", "replace")[-1500:])
+
+
+def slurp(path):
+    try:
+        with open(path) as f:
+            return json.load(f)
+    except (OSError, ValueError):
+        return None
+    finally:
+        if os.path.exists(path):
+            os.remove(path)
+
+
+def run_fresh_views(case):
+    """what a process has in sys.modules after importing each of the lists (one interpreter, one forked copy per list)"""
+    FRESH_N[0] += 1
+    base = os.path.join(os.getcwd(), "lg_fresh_%d_%d" % (os.getpid(), FRESH_N[0]))
+    plans = case["fresh_views"]
+    arg = ";".join("%s|%s|%d|%d" % (",".join(pl["imports"]), pl.get("prelude") or "none", pl.get("seed", 0), pl.get("walks", 0))
+                   for pl in plans)
+    err = fresh_python(["views", arg, os.path.dirname(os.path.abspath(__file__)), base])
+    views = [slurp("%s.%d" % (base, i)) or {"_crash": err or "the forked copy wrote no view"} for i in range(len(plans))]
+    return {"views": views}
+
+
+def run_fresh(case):
+    """parent side: one fresh interpreter for a batch of cases (or for a single case: a replay)"""
+    fr = case["fresh"]
+    FRESH_N[0] += 1
+    base = os.path.join(os.getcwd(), "lg_fresh_%d_%d" % (os.getpid(), FRESH_N[0]))
+    single = "cases" not in case
+    job = {"cases": [{k: v for k, v in case.items() if k != "fresh"}] if single else case["cases"]}
+    with open(base + ".in", "w") as f:
+        json.dump(job, f)
+    err = fresh_python(["run", ",".join(fr["imports"]), fr.get("prelude") or "none",
+                        os.path.dirname(os.path.abspath(__file__)), base + ".in", base + ".out"])
+    os.remove(base + ".in")
+    out = slurp(base + ".out")
+    if err or out is None:
+        return {"_crash": err or "fresh interpreter wrote no result"}
+    if single:
+        o = out["batch"][0]
+        if isinstance(o, dict) and "_crash" not in o:
+            o["fresh_process"] = {k: out[k] for k in ("errors", "warm_imported")}
+        return o
+    return out
+
+
+def where(name, m):
+    """taskiq's own / third-party / standard library, by where the module's file is (namespace read directly)"""
+    if name == "taskiq" or name.startswith("taskiq."):
+        return "taskiq"
+    f = raw_vars(m).get("__file__")
+    return "third-party" if isinstance(f, str) and ("site-packages" in f or "dist-packages" in f) else "stdlib"
+
+
+def type_name(o):
+    t = type(o)
+    return "module" if t is types.ModuleType else "%s.%s" % (t.__module__, t.__qualname__)
+
+
+def fresh_start():
+    for m in UNLOADED:
+        sys.modules.pop(m, None)
+    install_watch()
+    before = set(sys.modules)
+    warm_up()
+    return sorted(set(sys.modules) - before)
+
+
+def fresh_child(snapshot, errors, job_path, out_path):
+    """child side (called by FRESH_BOOT after the imports, the prelude and the snapshot): the cases, in order"""
+    import traceback
+    with open(job_path) as f:
+        job = json.load(f)
+    out = {"errors": errors, "warm_imported": fresh_start(), "batch": []}
+    for c in job["cases"]:
+        try:
+            out["batch"].append(run_case(c, {}))
+        except BaseException:  # noqa: B036 - a crash is an observation
+            out["batch"].append({"_crash": traceback.format_exc()[-2000:]})
+    with open(out_path, "w") as f:
+        json.dump(out, f, default=str)
+
+
+def fresh_child_view(snapshot, errors, seed, walks, out_path):
+    out = {"errors": errors, "warm_imported": fresh_start()}
+    out.update(fresh_view(snapshot, {"seed": seed, "walks": walks}))
+    with open(out_path, "w") as f:
+        json.dump(out, f, default=str)
+
+
+PROBE_NAME = "LgNoSuchError"
+
+
+def fresh_view(snapshot, job):
+    """what this process had in sys.modules when the application code was done (name, Python's own classification, type of
+    the module object, owner), and - for taskiq's own modules - attributes one can walk THROUGH: `module:attr.<made-up>`
+    is a name Python's getattr cannot resolve (checked here, in a process that loads nothing afterwards)"""
+    mods, walks = [], []
+    r = random.Random(job.get("seed", 0))
+    for name in snapshot:
+        m = sys.modules.get(name)
+        if m is None or not isinstance(name, str):
+            continue
+        k = classify(m)
+        d = {"name": name, "kind": k, "type": type_name(m), "owner": where(name, m)}
+        if k == "inst":
+            d["callable"] = callable(m)
+        mods.append(d)
+    own = [d["name"] for d in mods if d["owner"] == "taskiq" and d["kind"] == "module"]
+    for name in sorted(r.sample(own, min(len(own), job.get("walks", 0)))):
+        m = sys.modules[name]
+        attrs = [(a, o) for a, o in sorted(raw_vars(m).items()) if isinstance(a, str) and a.isidentifier()]
+        modv = [x for x in attrs if isinstance(x[1], types.ModuleType)]
+        rest = [x for x in attrs if not isinstance(x[1], types.ModuleType) and not x[0].startswith("__")] or attrs
+        for a, o in r.sample(modv, min(len(modv), 2)) + r.sample(rest, min(len(rest), 2)):
+            try:
+                if getattr(m, a) is not o or getattr(m, a) is not o:
+                    continue
+                k = classify(o)
+                try:
+                    getattr(o, PROBE_NAME)
+                    continue                      # an object that answers every name: nothing to say about it
+                except AttributeError:
+                    pass
+                w = {"module": name, "attr": a, "kind": k, "type": type_name(o) if k == "module" else k}
+                if k == "inst":
+                    w["callable"] = callable(o)
+                walks.append(w)
+            except Exception:  # noqa: BLE001,S112 - an attribute that cannot be looked at is not offered
+                continue
+    return {"snapshot": mods, "walks": walks}
+
+
+def fresh_entries():
+    """every module file of the taskiq package, read off the package's directories (nothing imported)"""
+    import taskiq
+    out = set()
+    for root in taskiq.__path__:
+        for d, dirs, files in os.walk(root):
+            dirs[:] = sorted(x for x in dirs if x.isidentifier())
+            rel = os.path.relpath(d, root)
+            prefix = ["taskiq"] + ([] if rel == "." else rel.split(os.sep))
+            for f in files:
+                if f.endswith(".py") and f[:-3].isidentifier():
+                    out.add(".".join(prefix if f == "__init__.py" else prefix + [f[:-3]]))
+    return sorted(out)
+
+
 def run_case(case, opts):
+    if "fresh" in case:
+        return run_fresh(case)
+    if "fresh_views" in case:
+        return run_fresh_views(case)
+    if case.get("special") == "fresh_entries":
+        return {"special": "fresh_entries", "modules": fresh_entries()}
     if case.get("special") == "lazy_view":
         return {"special": "lazy_view", "packages": lazy_view()}
     if case.get("special") == "discover":
@@ -799,13 +1110,13 @@ def run_case(case, opts):
     with Unloaded(case.get("lazy", ())) as un:
         if un.problems:
             return {"_crash": "a sub-module that must not be loaded cannot be unloaded: %r" % un.problems[:3]}
-        res, eff, newmods = window(env, case["entry"], case["raw"], case.get("argtab", ()))
+        res, eff, newmods, ran = window(env, case["entry"], case["raw"], case.get("argtab", ()))
         nested = []
         if case.get("nested", True):
             for path, sub in list(subtrees(case["raw"]))[:14]:
-                r2, _e2, m2 = window(env, case["entry"], sub, case.get("argtab", ()))
-                nested.append([list(path), r2, m2])
-    obs = {"res": res, "eff": eff, "newmods": newmods, "nested": nested}
+                r2, _e2, m2, ran2 = window(env, case["entry"], sub, case.get("argtab", ()))
+                nested.append([list(path), r2, m2 + [x for x in ran2[0] if x not in m2]])
+    obs = {"res": res, "eff": eff, "newmods": newmods, "executed": ran[0], "asked": ran[1], "nested": nested}
     if un.pre:
         obs["lazy_pre"] = un.pre
     return obs
